@@ -4,7 +4,7 @@
 (* and are mapped, order-preserving, above every blob length used.                               *)
 EXTENDS Integers, TLC
 
-BVal(x) == CASE x = -32 -> 1000001 [] x = -63 -> 1000002 [] x = -64 -> 1000003 [] OTHER -> x
+BVal(x) == CASE x = -32 -> 2000000001 [] x = -63 -> 2000000002 [] x = -64 -> 2000000003 [] OTHER -> x
 RMin(a, b) == IF a <= b THEN a ELSE b
 
 \* the implementation, in its own order of tests
